@@ -100,6 +100,14 @@ func vC19Record(m map[string]any) map[string]any {
 	return r
 }
 
+func vC19Body(start, n int) []byte {
+	b := make([]byte, n)
+	for i := range b {
+		b[i] = byte((start + i) % 251)
+	}
+	return b
+}
+
 // ---- unit level ----
 
 type vC19Writer struct {
@@ -352,10 +360,10 @@ func (b *vC19Backend) respond(c net.Conn, br *bufio.Reader, method string, sc ma
 		kv := vList(h)
 		fmt.Fprintf(&head, "%s: %s\r\n", string(vUnhex(kv[0])), string(vUnhex(kv[1])))
 	}
-	body := vC15Body(int(vInt(sc["body_start"])), int(vInt(sc["body_len"])))
+	body := vC19Body(int(vInt(sc["body_start"])), int(vInt(sc["body_len"])))
 	nobody := method == "HEAD" || status == 204 || status == 304
 	switch vStr(sc["kind"]) {
-	case "reply", "delay", "hints":
+	case "", "reply", "delay", "hints":
 		if vStr(sc["kind"]) == "delay" {
 			time.Sleep(time.Duration(vInt(sc["delay_ms"])) * time.Millisecond)
 		}
@@ -535,6 +543,11 @@ func TestVerifC19(t *testing.T) {
 	for _, c := range cases[1:] {
 		if sc, ok := c["script"].(map[string]any); ok {
 			scripts[vInt(c["id"])] = sc
+		}
+		if sl, ok := c["slow"].(map[string]any); ok {
+			if sc, ok := sl["script"].(map[string]any); ok {
+				scripts[vInt(sl["id"])] = sc
+			}
 		}
 	}
 	claimed := map[int64][]string{} // case id -> targets claimed
